@@ -13,6 +13,7 @@ package c06
 
 import (
 	"bytes"
+	"encoding/json"
 	"fmt"
 	"os"
 	"path/filepath"
@@ -549,10 +550,10 @@ func Run(c *core.Ctx) core.FinishOpts {
 		}
 	}
 
-	if c.Only != "" {
+	if only := onlyID(c); only != "" {
 		var keep []*acase
 		for _, a := range cases {
-			if a.id == c.Only {
+			if a.id == only {
 				keep = append(keep, a)
 			}
 		}
@@ -780,4 +781,24 @@ func tail(b []byte, n int) string {
 		s = s[:n] + "..."
 	}
 	return s
+}
+
+// onlyID returns the id of the single case to run: --only <id>, or the id stored in a --replay file.
+func onlyID(c *core.Ctx) string {
+	if c.Only != "" || c.Replay == "" {
+		return c.Only
+	}
+	data, err := os.ReadFile(c.Replay)
+	if err != nil {
+		return ""
+	}
+	var r struct {
+		Case struct {
+			ID string `json:"id"`
+		} `json:"case"`
+	}
+	if json.Unmarshal(data, &r) != nil {
+		return ""
+	}
+	return r.Case.ID
 }
